@@ -312,8 +312,32 @@ func (g *gen) invalidSchemaStream(scs []*scenario, n int) {
 		{"ref-loop-not", `{"$defs":{"a":{"not":{"$ref":"#/$defs/a"}}},"properties":{"a":{"$ref":"#/$defs/a"}}}`},
 		{"ref-loop-allOf", `{"$defs":{"a":{"allOf":[{"type":"integer"},{"$ref":"#/$defs/a"}]}},"properties":{"a":{"$ref":"#/$defs/a"}}}`},
 	}
+	fixed = append(fixed, []struct{ name, schema string }{
+		// the loop / the dangling reference is in a branch this instance never reaches: still a compile error
+		{"ref-loop-unexercised", `{"properties":{"zz":{"$ref":"#/$defs/a"}},"$defs":{"a":{"$ref":"#/$defs/a"}}}`},
+		{"ref-loop-unexercised-anyOf", `{"$schema":"http://json-schema.org/draft-07/schema#","properties":{"zz":{"type":"object","properties":{"q":{"$ref":"#/definitions/a"}}}},"definitions":{"a":{"anyOf":[{"type":"string"},{"$ref":"#/definitions/b"}]},"b":{"not":{"$ref":"#/definitions/a"}}}}`},
+		{"ref-dangling-indirect", `{"properties":{"zz":{"$ref":"#/$defs/a"}},"$defs":{"a":{"properties":{"q":{"$ref":"#/$defs/missing"}}}}}`},
+		{"ref-dangling-unexercised", `{"$schema":"http://json-schema.org/draft-07/schema#","properties":{"zz":{"items":{"$ref":"#/definitions/missing"}}}}`},
+	}...)
 	for _, fx := range fixed {
 		g.add(&Input{Schema: fx.schema, Data: obj, Expect: cSchemaErr, Kind: "invalid-schema:" + fx.name})
+	}
+	// definitions are compiled lazily: what is never referenced may loop or dangle;
+	// a cycle that descends into the instance (through properties) is a legitimate recursive schema
+	for _, fx := range []struct {
+		name, schema, data string
+		expect             int
+	}{
+		{"lazy-unreferenced-loop", `{"$defs":{"a":{"$ref":"#/$defs/b"},"b":{"$ref":"#/$defs/a"}}}`, obj, cValid},
+		{"lazy-unreferenced-dangling", `{"$schema":"http://json-schema.org/draft-07/schema#","definitions":{"a":{"$ref":"#/definitions/missing"}}}`, obj, cValid},
+		{"recursive-through-properties", `{"$defs":{"n":{"type":"object","properties":{"next":{"$ref":"#/$defs/n"},"v":{"type":"integer"}},"required":["v"]}},"properties":{"a":{"$ref":"#/$defs/n"}}}`, `{"a":{"v":1,"next":{"v":2,"next":{"v":3}}}}`, cValid},
+		{"recursive-through-properties", `{"$defs":{"n":{"type":"object","properties":{"next":{"$ref":"#/$defs/n"},"v":{"type":"integer"}},"required":["v"]}},"properties":{"a":{"$ref":"#/$defs/n"}}}`, `{"a":{"v":1,"next":{"v":2,"next":{"v":"3"}}}}`, cInvalid},
+		{"recursive-root", `{"type":"object","properties":{"child":{"$ref":"#"},"n":{"type":"integer"}},"additionalProperties":false}`, `{"n":1,"child":{"child":{"n":2}}}`, cValid},
+		{"recursive-root", `{"type":"object","properties":{"child":{"$ref":"#"},"n":{"type":"integer"}},"additionalProperties":false}`, `{"n":1,"child":{"child":{"m":2}}}`, cInvalid},
+		{"recursive-items", `{"$schema":"http://json-schema.org/draft-07/schema#","definitions":{"t":{"type":"array","items":{"$ref":"#/definitions/t"}}},"properties":{"a":{"$ref":"#/definitions/t"}}}`, `{"a":[[],[[]],[[[],[]]]]}`, cValid},
+		{"recursive-items", `{"$schema":"http://json-schema.org/draft-07/schema#","definitions":{"t":{"type":"array","items":{"$ref":"#/definitions/t"}}},"properties":{"a":{"$ref":"#/definitions/t"}}}`, `{"a":[[],[[]],[[[],[1]]]]}`, cInvalid},
+	} {
+		g.add(&Input{Schema: fx.schema, Data: fx.data, Expect: fx.expect, Kind: fx.name})
 	}
 	// patterns Go's regexp rejects: the implementation must report a schema error (not panic);
 	// the Coq model has no notion of "Go rejects this pattern" -> implementation-side only
@@ -509,7 +533,7 @@ func Run(cfg *common.Config) (*common.Report, error) {
 	if cfg.Replay != "" {
 		return replay(cfg, g)
 	}
-	scs := g.pairStream(cfg.Pick(70, 3000))
+	scs := g.pairStream(cfg.Pick(110, 3000))
 	g.invalidSchemaStream(scs, cfg.Pick(90, 2500))
 	g.badInputStream(scs, cfg.Pick(40, 600))
 	g.facadeStream(cfg.Pick(36, 600))
